@@ -290,8 +290,20 @@ def run(ctx):
     wf = vlib.run_model([f'swwf {vlib.cps(s)}' for s in texts])
     not_wf = [s for s, r in zip(texts, wf) if not r.startswith('OK') or '0' in r[3:]]
     per_stage['swwf'] = {'compared': len(texts), 'not_wf': len(not_wf)}
-    if not_wf:
-        res['disagreements'].append({'stage': 'sw_wf fails on a parsed statement', 'input': [ord(c) for c in not_wf[0]]})
+    # the one way a parsed statement is known to miss the hypothesis: a Parenthesis that a later pass (group_as,
+    # group_typecasts, group_assignment) wrapped into ONE child -- `( as )`: the filter then leaves it alone (it raised
+    # IndexError until the fix of C07-RX-1) and the blanks next to the parentheses survive: finding C10-WS-9
+    other = [s for s in not_wf if not _single_child_paren(s)]
+    wrapped = [s for s in not_wf if _single_child_paren(s)]
+    per_stage['swwf']['single_child_parenthesis'] = len(wrapped)
+    if wrapped:
+        res['failures'].append({'input': [ord(c) for c in wrapped[0]], 'kind': 'sw:parenthesis-wrapped-by-later-pass',
+                                'options': {'strip_whitespace': True},
+                                'observed': 'a Parenthesis with a single child (a later pass wrapped `(`, a keyword and `)` into '
+                                            'one group): the hypothesis of stripws_total does not hold and the blanks next to the '
+                                            'parentheses are kept'})
+    if other:
+        res['disagreements'].append({'stage': 'sw_wf fails on a parsed statement', 'input': [ord(c) for c in other[0]]})
     # the normal-form / fixed-point oracle quantifies over scripts of the verification grammar: junk, unicode soup and
     # spliced texts are used for the correspondence stages only
     gtexts = []
@@ -429,6 +441,25 @@ def _operator_after_comment_group(text):
     return any(walk(s) for s in stmts)
 
 
+def _single_child_paren(text):
+    import sqlparse
+    from sqlparse import sql
+    try:
+        stmts = sqlparse.parse(text)
+    except Exception:  # noqa
+        return False
+
+    def walk(g):
+        for t in g.tokens:
+            if t.is_group:
+                if isinstance(t, sql.Parenthesis) and len(t.tokens) < 2:
+                    return True
+                if walk(t):
+                    return True
+        return False
+    return any(walk(s) for s in stmts)
+
+
 def _sp_makes_hash_comment(f):
     """use_space_around_operators put a blank behind the operator '#': in the INPUT some Operator token ends in '#' and is
     directly followed by something that is no white space, and the OUTPUT re-lexes with a '# ' comment at a place where the
@@ -450,6 +481,9 @@ def _sp_makes_hash_comment(f):
 
 
 CLASS_PRED = {
+    'sw-parenthesis-wrapped-by-later-pass': lambda f: f.get('kind') in ('sw:parenthesis-wrapped-by-later-pass',
+                                                                        'sw:blank_after_lparen', 'sw:blank_before_rparen')
+    and _single_child_paren(''.join(map(chr, f.get('input', [])))),
     'sp-hash-operator-becomes-comment': lambda f: str(f.get('kind', '')).startswith(('sp:', 'not_fixed_point:sp'))
     and _sp_makes_hash_comment(f),
     # use_space_around_operators, text level: the comment's Comment group takes the line break that follows it; in the
